@@ -113,6 +113,29 @@ claim("C13", "other",
       "cross-link ACK handlers write) as a KNOWN-FINDING.",
       "DESIGN.md 5 C13", "The timed-trace consequences follow by induction from the single-step guards (stated, not derived).")
 
+claim("C07", "other",
+      "who-may-write / who-may-call closure of the handshake state, BDD path conditions at every REG1 / id-adoption / abandon site (entailment and exact equivalence), value provenance of builder arguments and of the socket each frame leaves on, per-iteration path formula of the broadcast loop",
+      "The single-step guards of the handshake are decided for every manager state and packet: every REG1 build records Some(idx) and a deadline now+4000 on all paths and is built only with the slot free "
+      "(driver, immediate) or on the slot's own uplink (re-send); the driver additionally needs active_connections == 0 (recounted from `connected` right before), a chosen target and the throttle; "
+      "the id is written only by handle_reg2, under len >= 258 and pending == Some(arrival uplink), from bytes [2,258), freeing the slot and arming one broadcast that the driver emits once and disarms; "
+      "every REG1 / registration REG2 builder call takes self.srtla_id; connected := true only in the REG3 arm (type exactly 0x9202) on the link whose conn_id tagged the datagram; REG_ERR frees the slot on "
+      "every path; the abandon condition is exactly pending & deadline != 0 & now >= deadline and runs first in housekeeping; each frame leaves on the socket of the uplink the manager named and the broadcast "
+      "loop visits the whole slice without early exit.",
+      "DESIGN.md 5 C07", "Reachable-state exploration under adversarial packet order (the property's bounded-history quantifier) is not performed; the clauses are the inductive step guards. Liveness ('so a new attempt can start') is not decided.")
+claim("C15", "proof",
+      "panic reachability over the resolved call graph discharged by interval / length / relational abstract interpretation (bounds, slice ranges, copy lengths, arithmetic overflow), loop-guard path conditions for the NAK bound, layout tables extracted from builders and parsers by value reconstruction and compared field by field",
+      "Total: every may-panic site (index, slice range, copy_from_slice length, overflow, unwrap) in all decoders, classifier helpers and sender-side builders is discharged for every byte string; "
+      "bounded: range pushes are guarded by len < 1000 and single pushes occur at most once per 4 payload bytes; exact layouts: constants (258/2/10/38, type codes), builder tables, parser offsets "
+      "(SRT ACK 16..20, NAK top bit, data top bit clear, retransmit bit 2 of byte 4, SRTLA ACK 4-byte header + BE u32s); round trip: builder and parser tables agree on offset, width and endianness of every field.",
+      "DESIGN.md 5 C15", "Round trip is decided as table agreement (offset/width/endianness per field), which is necessary and, for these fixed-layout codecs, sufficient up to the correctness of to_be_bytes/from_be_bytes.")
+claim("C18", "other",
+      "panic reachability + abstract interpretation for totality, construction-site tables of error codes and responses with their path conditions, interval analysis of every value reaching the timeout atomic, field-identity chain setter -> atomic -> snapshot -> status key, sibling comparison of the stdin and socket dispatchers",
+      "All may-panic sites reachable from dispatch / dispatch_async / Response::to_json / SharedStats are discharged (serde_json of the listed infallible value types is the one accepted unwrap); "
+      "each error code is built at its enumerated sites under its condition; the dispatcher returns None exactly for a request without id and applies the method before that test; every Response has version 2.0, "
+      "exactly one of result/error and the request's id; every store to the timeout atomic lies in [1000,60000] and the handler echoes the stored value; each setter's atomic is the one snapshot() and get_status read; "
+      "the two entry points run the same pre-checks with the same codes and call handle_method identically for non-subscription methods.",
+      "DESIGN.md 5 C18", "serde_json's parser/serialiser are trusted (external crate); JSON text equality of the two entry points is decided as same construction sites, not as string equality.")
+
 NOT_APPLICABLE = {}
 ALL = ["C%02d" % i for i in range(1, 21)]
 
